@@ -606,6 +606,19 @@ func (i *Install) replaceRelease(rel *release.Release) error {
 	// Update version to the next available
 	rel.Version = last.Version + 1
 
+	// The last revision is not necessarily the deployed one (e.g. a failed
+	// upgrade leaves the revision before it deployed). Supersede any earlier
+	// revision that is still marked deployed, so the history never ends up
+	// with two deployed revisions.
+	for _, r := range hist[1:] {
+		if r.Info.Status == release.StatusDeployed {
+			r.SetStatus(release.StatusSuperseded, "superseded by new release")
+			if err := i.recordRelease(r); err != nil {
+				return err
+			}
+		}
+	}
+
 	// Do not change the status of a failed release.
 	if last.Info.Status == release.StatusFailed {
 		return nil
